@@ -353,6 +353,11 @@ func (e *Enc) eval(sx *Sx, env *evalEnv) tv {
 		x := e.eval(args[0], env)
 		return tv{Val{e.refOld(x.v, env.heap), "Bool"}, nil}
 	case "forall", "exists":
+		if h == "forall" {
+			if t, ok := e.expandSmallForall(args, env); ok {
+				return tv{Val{t, "Bool"}, nil}
+			}
+		}
 		n := *env
 		n.names = map[string]binding{}
 		for k, v := range env.names {
@@ -435,7 +440,11 @@ func (e *Enc) eval(sx *Sx, env *evalEnv) tv {
 			k, _ := strconv.Atoi(e.ct.Opts["bytes-bound"])
 			return tv{Val{e.bytesExpand(env.heap, x.v.T, k), "B"}, nil}
 		}
-		return tv{Val{e.tokBytes(env.heap, x.v.T), "B"}, nil}
+		bt := e.tokBytes(env.heap, x.v.T)
+		if env.sideOK() {
+			e.sideFact(env, app("=", app("blen", bt), app("slen", x.v.T))) // representation invariant of the byte-string view
+		}
+		return tv{Val{bt, "B"}, nil}
 	case "ghost":
 		// (ghost NAME): an integer ghost variable of the verification (no counterpart in the program state)
 		key := "$s:g:" + args[0].Atom
@@ -860,6 +869,61 @@ func (e *Enc) factText(f *Fact) string {
 	return t
 }
 
+// expandSmallForall: (forall ((k Int)) (=> (and (<= 0 k) (< k N)) body)) where N is, at this program point, a small
+// constant (the length of a literal or variadic slice): the conjunction of the instances.
+func (e *Enc) expandSmallForall(args []*Sx, env *evalEnv) (string, bool) {
+	if len(args) != 2 || !args[0].IsList || len(args[0].List) != 1 {
+		return "", false
+	}
+	b := args[0].List[0]
+	if !b.IsList || len(b.List) != 2 || b.List[1].String() != "Int" {
+		return "", false
+	}
+	k := b.List[0].Atom
+	imp := args[1]
+	if !imp.IsList || len(imp.List) != 3 || imp.List[0].Atom != "=>" {
+		return "", false
+	}
+	g := imp.List[1]
+	if !g.IsList || len(g.List) != 3 || g.List[0].Atom != "and" {
+		return "", false
+	}
+	lo, hi := g.List[1], g.List[2]
+	if lo.String() != "(<= 0 "+k+")" || !hi.IsList || len(hi.List) != 3 || hi.List[0].Atom != "<" || hi.List[1].Atom != k {
+		return "", false
+	}
+	if len(env.bound) != 0 {
+		return "", false
+	}
+	bound := e.eval(hi.List[2], env).v.T
+	nn := -1
+	if strings.HasPrefix(bound, "(slen (mkslice ") {
+		a := splitArgs(splitArgs(bound)[1])
+		if len(a) == 5 {
+			if v, err := strconv.Atoi(a[3]); err == nil {
+				nn = v
+			}
+		}
+	} else if strings.HasPrefix(bound, "(slen ") {
+		// a named slice defined as a literal mkslice
+		nm := splitArgs(bound)[1]
+		if lit, ok := e.sliceLit[nm]; ok {
+			nn = lit
+		}
+	} else if v, err := strconv.Atoi(bound); err == nil {
+		nn = v
+	}
+	if nn < 0 || nn > 8 {
+		return "", false
+	}
+	var cs []string
+	for i := 0; i < nn; i++ {
+		n := env.with(k, binding{Val{strconv.Itoa(i), "Int"}, types.Typ[types.Int]})
+		cs = append(cs, e.evalBool(imp.List[2], n))
+	}
+	return and(cs...), true
+}
+
 // selectPatterns: explicit triggers for a quantified contract clause: every heap read `(select H addr)` whose address
 // mentions all bound variables and contains no conditional, each as an alternative pattern. Without them the solvers
 // choose triggers on their own, and may pick only one side of an equation between two heap reads.
@@ -1028,6 +1092,9 @@ func (e *Enc) evalFold(sf *SpecFn, args []*Sx, env *evalEnv) tv {
 		}
 		e.readTrace = saved
 		e.sideFact(env, app("=", term, fmt.Sprintf("(ite (<= %s 0) %s (%s %s %s))", kT, sf.FoldUnit, sf.FoldOp, app("spec_"+sf.Name, prevArgs...), el.v.T)))
+		// the empty fold (so that folds over one-element literals unfold completely)
+		zeroArgs := append(append([]string{}, hs...), as[:len(as)-1]...)
+		e.sideFact(env, app("=", app("spec_"+sf.Name, append(zeroArgs, "0")...), sf.FoldUnit))
 		e.foldFrames(sf, hs, as, &n, env)
 	}
 	return tv{Val{term, sf.Ret}, nil}
